@@ -9,11 +9,27 @@ positions -1..len+1) and through the extracted model (coq/run/CssRun.v); events 
 results are compared (the action helpers get_css_section / select_item_css too, they share
 the scanner).  Search: the oracle states the property directly on the implementation's
 results: no exception, 0 <= start <= end <= len(source) for every reported range."""
+import hashlib
 import json
 import os
+import sys
 
+import c16_gen
 import common
 import css_util as U
+
+USER_RECURSION_LIMIT = 1000      # CPython's default: what a user of the library gets (./check raises its own to 10000)
+SCALE = True                     # stylesheets / values with depth, counts and token lengths in the thousands
+
+
+class user_limit:
+    def __enter__(self):
+        self.old = sys.getrecursionlimit()
+        sys.setrecursionlimit(USER_RECURSION_LIMIT)
+
+    def __exit__(self, *a):
+        sys.setrecursionlimit(self.old)
+        return False
 
 CHECKED = ('match', 'outward', 'inward')         # functions the property names
 KEY = 'c16css'
@@ -40,11 +56,88 @@ def _worker(s):
 
 
 def _impl(strings, procs):
-    if procs <= 1 or len(strings) < 64:
-        return [_worker(s) for s in strings]
-    import multiprocessing
-    with multiprocessing.get_context('fork').Pool(procs) as pool:
-        return pool.map(_worker, strings, chunksize=max(1, min(2000, len(strings) // (procs * 4))))
+    with user_limit():           # forked workers inherit the limit
+        if procs <= 1 or len(strings) < 64:
+            return [_worker(s) for s in strings]
+        import multiprocessing
+        with multiprocessing.get_context('fork').Pool(procs) as pool:
+            return pool.map(_worker, strings, chunksize=max(1, min(2000, len(strings) // (procs * 4))))
+
+
+# ---- scale: sampled positions, oracle only for the sheets (the extracted model needs minutes on them)
+def _scale_worker(arg):
+    s, ps = arg
+    return U.impl_events(s), {f: [U.IMPL[f](s, p) for p in ps] for f in CHECKED}, U.impl_split(s)
+
+
+def oracle_scale(s, ps, ev, res, sp):
+    bad = U.c16_events_oracle(s, ev)
+    if bad:
+        return (None, 'scan', bad)
+    bad = U.c16_ranges_oracle(s, 'split', sp)
+    if bad:
+        return (None, 'split_value', 'split_value: ' + bad)
+    for f in CHECKED:
+        for p, r in zip(ps, res[f]):
+            bad = U.c16_ranges_oracle(s, f, r)
+            if bad:
+                return (p, f, '%s at pos %d: %s' % (f, p, bad))
+    return None
+
+
+def run_scale(args, procs):
+    with user_limit():
+        if procs <= 1:
+            return [_scale_worker(a) for a in args]
+        import multiprocessing
+        with multiprocessing.get_context('fork').Pool(min(procs, len(args))) as pool:
+            return pool.map(_scale_worker, args, chunksize=1)
+
+
+def check_scale(ctx, model, procs, state):
+    rng = ctx.rng
+    quick = ctx.tier == 'quick'
+    sheets = c16_gen.css_scale_sheets(rng, quick)
+    args = [(s, c16_gen.sample_positions(rng, s)) for _, s in sheets]
+    res = run_scale(args, procs)
+    for (label, s), (_, ps), (ev, r, sp) in zip(sheets, args, res):
+        ctx.count_eval(len(ps))
+        ctx.cover('stream:scale:' + label)
+        if ev[0] == 'ok' and ev[1]:
+            ctx.nontrivial(s)
+            if len(ev[1]) >= 1000:
+                ctx.cover('css:1000-or-more-events')
+        if any(x[0] == 'ok' and len(x[1]) >= 1000 for f in ('outward', 'inward') for x in r[f] if isinstance(x, tuple)):
+            ctx.cover('css:balanced-chain-1000-or-more')
+        bad = oracle_scale(s, ps, ev, r, sp)
+        if bad:
+            ev, r, sp = run_scale([(s, ps)], 1)[0]          # must repeat (see c16_html.run_html)
+            bad = oracle_scale(s, ps, ev, r, sp)
+        if bad:
+            state['failures'].append((len(s), s, bad, ps))
+    state['strings'] += len(sheets)
+    # values: split_value only, oracle and model
+    vals = c16_gen.css_scale_values(rng, quick)
+    with user_limit():
+        sps = [U.impl_split(v) for v in vals]
+    msp = U.model_split(model, vals) if model is not None else None
+    for k, (v, sp) in enumerate(zip(vals, sps)):
+        ctx.count_eval()
+        ctx.cover('stream:scale:value')
+        bad = U.c16_ranges_oracle(v, 'split', sp)
+        if bad:
+            state['failures'].append((len(v), v, (None, 'split_value', 'split_value: ' + bad), []))
+        if msp is not None and sp != msp[k]:
+            state['dis'] += 1
+            ctx.say('DISAGREE css split on %s\n  impl  %r\n  model %r' % (U.short(v), repr(sp)[:300], repr(msp[k])[:300]))
+            if not bad:
+                ctx.broken.append({'kind': 'correspondence', 'file': 'css-c16:split', 'input': v[:400], 'pos': None,
+                                   'impl': repr(sp)[:300], 'model': repr(msp[k])[:300]})
+    state['strings'] += len(vals)
+
+
+def short_key(s):
+    return s if len(s) <= 400 else '%s...[%d chars, sha1 %s]' % (s[:60], len(s), hashlib.sha1(s.encode('utf-8', 'replace')).hexdigest()[:12])
 
 
 def check_strings(ctx, model, strings, stream, procs, state):
@@ -65,7 +158,7 @@ def check_strings(ctx, model, strings, stream, procs, state):
             ctx.cover('some-match')
         bad = oracle_string(s, im, sp)
         if bad:
-            state['failures'].append((len(s), s, bad))
+            state['failures'].append((len(s), s, bad, None))
         if models is not None:
             mo = models[k]
             d = U.compare(im, mo, U.FUNCS)
@@ -113,7 +206,14 @@ def run_css(ctx):
             'alphabet `a : ; { } ( ) space " \\ / * -` (exhaustive); random strings over a 26-character alphabet; '
             'mutations (delete/insert/replace/truncate) of valid generated stylesheets; every position -1..len+1. '
             'An evaluation is one (string, position); a string is non-trivial when the scanner reports at least one '
-            'event; distinct by string.' % n_ex)
+            'event; distinct by string. SCALE (%s): 12 stylesheet families (rules nested deeper than 1000 with and without '
+            'declarations, unclosed nesting, stray block ends, thousands of declarations / rules / value items, parentheses '
+            'nested deeper than 1000 balanced and unbalanced, comment / string / word tokens of thousands of characters, '
+            'unclosed comment, unclosed string ending in backslashes) with size drawn from 1100/1500/2100%s, positions sampled '
+            '(-1..2, the middle, len-2..len+1, 3 random), judged by the oracle only (the extracted model needs minutes '
+            'there); 7 value families of sizes 1100/2100 (thorough also 5000) for split_value through oracle and model. The implementation runs '
+            'under CPython\'s default recursion limit %d.' % (n_ex, 'on' if SCALE else 'OFF', '' if quick else '/5000',
+                                                            USER_RECURSION_LIMIT))
     ctx.cov['rule'] = (ctx.cov['rule'] + ' || ' if ctx.cov.get('rule') else '') + rule
     state = {'failures': [], 'dis': 0, 'strings': 0}
     check_strings(ctx, model, load_corpus(), 'corpus', 1, state)
@@ -133,14 +233,18 @@ def run_css(ctx):
             text, _ = U.gen_sheet(rng, lambda k: None, semis=False, max_depth=4, n_max=4)
         mut.append(U.mutate(rng, text)[:400])
     check_strings(ctx, model, mut, 'mutated', procs, state)
-    state['failures'].sort()
+    if SCALE:
+        check_scale(ctx, model, procs, state)
+    state['failures'].sort(key=lambda t: t[:2])
     seen = {}
-    for ln, s, (pos, f, why) in state['failures']:
+    for ln, s, (pos, f, why), ps in state['failures']:
         if seen.get(f, 0) >= 3:
             continue
         seen[f] = seen.get(f, 0) + 1
-        ctx.property_failure('%s:%s:%s' % (KEY, f, s), 'css %s on %s: %s' % (f, U.short(s), why),
-                             {'component': 'css', 'check': 'c16', 'text': s, 'pos': pos, 'func': f, 'why': why})
+        rp = {'component': 'css', 'check': 'c16', 'text': s, 'pos': pos, 'func': f, 'why': why}
+        if ps is not None:
+            rp['positions'] = ps
+        ctx.property_failure('%s:%s:%s' % (KEY, f, short_key(s)), 'css %s on %s: %s' % (f, U.short(s), why), rp)
     ctx.cov['correspondence']['css_c16'] = {'strings': state['strings'], 'disagreements': state['dis'],
                                             'oracle_failures': len(state['failures'])}
 
@@ -151,7 +255,16 @@ def replay_css(ctx, obj):
     if s is None:
         print('replay names a broken obligation, no input: %s' % json.dumps(rp)[:500])
         return 1
-    im, sp = _worker(s)
+    if rp.get('positions') is not None:
+        ps = rp['positions']
+        ev, r, sp = run_scale([(s, ps)], 1)[0]
+        bad = oracle_scale(s, ps, ev, r, sp) if ps else None
+        if not ps:
+            b = U.c16_ranges_oracle(s, 'split', sp)
+            bad = (None, 'split_value', 'split_value: ' + b) if b else None
+        print('css input %s (%d characters): %s' % (U.short(s), len(s), bad[2] if bad else 'property holds at the recorded positions'))
+        return 1 if bad else 0
+    im, sp = _impl([s], 1)[0]
     bad = oracle_string(s, im, sp)
     print('css input %r: %s' % (s, bad[2] if bad else 'property holds at every position'))
     return 1 if bad else 0
